@@ -20,6 +20,14 @@ CHECKS = {
             "counts, arguments seen (values equal, references resolving to the original), per-node results and final state of every by-reference "
             "object must agree.",
             "DESIGN.md C01", "No BgServingThread configuration (D7 would surface as spurious timeouts inside nested calls)."),
+    "C02": ("exploration",
+            "deterministic simulation: seeded operation histories applied in lock-step to a proxy (target on the live peer) and a local twin; oracle = the twin, plus the attribute-policy model for the default configuration",
+            "Seeded search over operation sequences (about 150 operation forms over list, dict, set, bytearray, deque, iterators/generators, BytesIO and a "
+            "user class with operator overloads, a property, __hash__/__repr__/__format__ and a context manager; operands immutable or living on the "
+            "target's side; buffered iteration with drawn chunk/max_chunk/factor) x configuration (classic, public attributes, default) x link "
+            "schedule. After every operation: same result or same exception class, 'result is the target itself' agrees, and the target's state "
+            "equals the twin's; under the default configuration operations the policy denies must raise and change nothing.",
+            "DESIGN.md C02", "Operations whose local meaning depends on address-based reprs or on a set's insertion history are not generated."),
     "C03": ("exploration",
             "deterministic simulation: seeded send/echo/re-receive/mutate/bounce/copy histories between two live peers; oracle = independent by-value/by-reference classifier + identity checks on both peers' real objects",
             "Seeded search over histories (send as argument, receive as result, echo, re-receive with the proxy alive or dropped, two asynchronous "
